@@ -546,3 +546,8 @@ func LoadAttestations(st gitstore.Storer) (*attestations.Attestations, error) {
 func RecordEntryNoNumber(st gitstore.Storer, ref, target string) error {
 	return rsl.NewReferenceEntry(ref, hashOf(target)).CommitWithoutNumber(st)
 }
+
+// VerifyMergeable runs the mergeability prediction through the real verifier.
+func VerifyMergeable(st gitstore.Storer, target, feature string) (bool, error) {
+	return policy.NewPolicyVerifier(st).VerifyMergeable(context.Background(), target, feature)
+}
